@@ -1,5 +1,5 @@
 /-
-  Helper lemmas for C18: front-end `add` sequences give unique ids; FEA name-id shifting.
+  Helper lemmas for C18: front-end `add` sequences give unique ids.
   Core Lean only.
 -/
 import FontcProofs.NamesFallback
@@ -15,23 +15,5 @@ theorem ofAdds_nodup_aux (adds : List (Nat × Str)) (b : Builder) (h : (akeys b.
 theorem ofAdds_nodup (adds : List (Nat × Str)) (major : Int) (minor : Nat) :
     (akeys (Builder.ofAdds adds major minor).names).Nodup :=
   ofAdds_nodup_aux adds _ (by simp [akeys])
-
-/-! ### FEA ids -/
-
-theorem foldl_max_ge (t : Table) (m : Nat) : m ≤ t.foldl (fun m p => max m p.1.id) m ∧
-    ∀ p ∈ t, p.1.id ≤ t.foldl (fun m p => max m p.1.id) m := by
-  induction t generalizing m with
-  | nil => simp
-  | cons q t ih =>
-    obtain ⟨h1, h2⟩ := ih (max m q.1.id)
-    refine ⟨by simp only [List.foldl_cons]; omega, ?_⟩
-    intro p hp
-    simp only [List.foldl_cons]
-    rcases List.mem_cons.mp hp with e | hp
-    · subst e; omega
-    · exact h2 p hp
-
-theorem le_maxId {t : Table} {p : NameKey × Str} (h : p ∈ t) : p.1.id ≤ maxId t := (foldl_max_ge t 255).2 p h
-theorem maxId_ge (t : Table) : 255 ≤ maxId t := (foldl_max_ge t 255).1
 
 end Fontc.Names
